@@ -85,7 +85,10 @@ def random_config(rng, seed, mode=None, nd=None, dtype=None, maxcap=3000, strat=
         # file names whose second count changes its number of digits inside the recording (10^9 s = 2001-09-09T01:46:40Z)
         t_s = 10**9 - rng.randint(0, max(1, (nw - 2) * fc // 1000))
     t0 = t_s * 1000 // fc * fc
-    if rng.random() < 0.6:
+    epoch = rng.random() < 0.05 and not big
+    if epoch:
+        t0 = fc * rng.randint(1, 3)        # the very first subdirectory period after the epoch (1970-01-01T00-00-00)
+    if rng.random() < 0.6 and not epoch:
         # put a subdirectory boundary inside the modelled windows
         sb = (t0 // (sc * 1000) + 1) * sc * 1000
         t0 = sb - rng.randint(1, nw - 1) * fc
